@@ -353,6 +353,9 @@ def catalogue(tier="quick"):
     out.append(("coarse_lower_fine_upper", Doc([Staff(1, meter=(2, 4), measures=[[[N("C", 5, 8, tuplet=(3, 2)), N("D", 5, 8, tuplet=(3, 2)), N("E", 5, 8, tuplet=(3, 2)), N("F", 5, 8), N("G", 5, 8)]],
                                                                                   [[N(s_, 5, 16, tuplet=(5, 4)) for s_ in "CDEFG"] + [N("A", 5)]]]),
                                                  Staff(2, clef=("F", 4), meter=(2, 4), measures=[[[N("C", 3), N("D", 3)]], [[N("E", 3), N("G", 3)]]])]), both))
+    out.append(("triplets_in_the_left_hand", Doc([Staff(1, measures=[[[N("E", 5), N("D", 5), N("C", 5, 2)]], [[N("G", 5, 2), N("E", 5, 2)]]]),
+                                                  Staff(2, clef=("F", 4), measures=[[[N("C", 3, 8, tuplet=(3, 2)), N("E", 3, 8, tuplet=(3, 2)), N("G", 3, 8, tuplet=(3, 2)), N("C", 3), N("E", 3, 2)]],
+                                                                                    [[N("F", 2, 4, tuplet=(3, 2)), N("A", 2, 4, tuplet=(3, 2)), N("C", 3, 4, tuplet=(3, 2)), N("F", 2, 2)]]])]), both))
     out.append(("pickup", Doc([Staff(1, measures=[[[N("G", 4)]], [[N("C", 5, 2), N("B", 4, 2)]], [[N("A", 4, 2, 1)]]])], names=["0", "1", "2"]), both))
     out.append(("meter_change", Doc([Staff(1, measures=[[[N("C", 4, 1)]], [[N("D", 4, 2, 1)]], [[N("E", 4, 2, 1)]]], meter_changes={1: (3, 4)})]), both))
     out.append(("octaves_and_accidentals", Doc([Staff(1, measures=[[[N("C", 2, 4, alter=1), N("B", 5, 4, alter=-1), N("F", 6, 4, alter=2), N("E", 1, 4, alter=-2)]],
@@ -372,6 +375,11 @@ def catalogue(tier="quick"):
                                                        Staff(2, clef=("F", 4), meter=(6, 8), measures=[[[MR(3)]], [[MR(3)]], [[N("C", 3, 2, 1)]], [[MR(3)]]])]), mei))
     out.append(("two_layers", Doc([Staff(1, measures=[[[N("E", 5, 2), N("D", 5, 2)], [N("C", 4), N("D", 4), N("E", 4), N("F", 4)]],
                                                        [[N("C", 5, 1)], [N("G", 3, 2), N("C", 4, 2)]]])]), mei))
+    T3 = lambda st_, o_, d_=8: N(st_, o_, d_, tuplet=(3, 2))
+    out.append(("triplets_in_the_second_layer_and_in_the_left_hand", Doc([Staff(1, measures=[[[N("E", 5, 2), N("D", 5, 2)], [T3("C", 4), T3("D", 4), T3("E", 4), N("F", 4), T3("G", 4, 4), T3("A", 4, 4), T3("B", 4, 4)]],
+                                                                                        [[N("C", 5, 1)], [N("G", 3, 2), T3("C", 4), T3("B", 3), T3("A", 3), N("G", 3)]]]),
+                                                                      Staff(2, clef=("F", 4), measures=[[[T3("C", 3), T3("E", 3), T3("G", 3), N("C", 3), N("E", 3, 2)]],
+                                                                                                        [[T3("F", 2, 4), T3("A", 2, 4), T3("C", 3, 4), N("F", 2, 2)]]])]), mei))
     out.append(("cross_staff_note", Doc([Staff(1, measures=[[[N("C", 4), N("G", 3, staff=2), N("E", 4, 2)]]]),
                                          Staff(2, clef=("F", 4), measures=[[[N("C", 3, 1)]]])]), mei))
     out.append(("cross_staff_chord_notes", Doc([Staff(1, measures=[[[C([("G", None, 3), ("E", None, 4), ("C", None, 5)], 2, note_staffs=[2, None, None]),
